@@ -936,12 +936,14 @@ class Choice(Operation):
            global_state: pg.geno.AttributeDict,
            step: int = 0) -> List[Any]:
     num_performed_ops = 0
+    # NOTE: `limit` may be a scheduled value, like the probabilities.
+    limit = scalars.scalar_value(self.limit, step)
     for op, prob in self._ops:
       prob = scalars.scalar_value(prob, step)
       if self._random.random() < prob:
         inputs = op(inputs, global_state=global_state, step=step)
         num_performed_ops += 1
-        if self.limit is not None and num_performed_ops == self.limit:
+        if limit is not None and num_performed_ops == limit:
           break
     return inputs
 
